@@ -165,13 +165,23 @@ def run(chk):
     both = all(any(len(t) == 1 and prefix_of(totree(t[0]), w) and len(totree(t[0])[1]) >= 3 - (0 if w is ws[0] else 0) for t in t_sk) for w in ws)
     chk.ob("R09.1", "SigningKey.from_der: every accepting path consumes a prefix of the ECPrivateKey or PKCS#8 tree, and both formats are accepted [%d tree(s)]" % len(t_sk), oksk and both, loc="keys:SigningKey.from_der",
            key="C09|R09.1|sk-reader", detail="reader trees: %s" % sorted(t_sk)[:3])
-    # constants: version and context tag
+    # constants: at every accepting return the ECPrivateKey version read is 1 and, where the curve came from
+    # the [0] parameters, the context tag read is 0 (decided from the facts at the return states)
     f = p.func("keys:SigningKey.from_der")
     src = norm_text(f.node)
-    chk.ob("R09.1", "ECPrivateKey version written (1) is the version required; PKCS#8 version written (1) is among those accepted; context tag 0 written is the tag required", "version != 1" in src and "version not in (0, 1)" in src and "tag != 0" in src,
-           loc=f.qname, key="C09|R09.1|constants", detail="version / tag guards of from_der changed")
+    okc = True
+    ntag = 0
+    for _v, fs in it_sk.watch_returns["keys:SigningKey.from_der"]:
+        ver = fs.env.get("version")
+        okc &= isinstance(ver, VInt) and fs.proves_eq(ver.lin - 1)
+        tg = fs.env.get("tag")
+        if tg is not None:
+            ntag += 1
+            okc &= isinstance(tg, VInt) and fs.proves_eq(tg.lin)
+    chk.ob("R09.1", "reader constants: ECPrivateKey version == 1 (written: 1) at every accepting return; context tag == 0 (written: [0]) where parameters are read [%d tagged state(s)]" % ntag, okc and ntag > 0,
+           loc=f.qname, key="C09|R09.1|constants", detail="from_der can accept an ECPrivateKey whose version is not 1 or whose parameters tag is not [0]")
     oid_w = [n for n in ast.walk(sk_der.node) if isinstance(n, ast.Call) and norm_text(n.func).endswith("encode_oid")]
-    chk.ob("R09.1", "PKCS#8 writer uses oid_ecPublicKey, which the reader accepts", len(oid_w) == 1 and norm_text(oid_w[0].args[0]) == "*oid_ecPublicKey" and "algorithm_oid not in (oid_ecPublicKey" in src, loc=sk_der.qname, key="C09|R09.1|oid", detail="algorithm OID written is not among those accepted")
+    chk.ob("R09.1", "PKCS#8 writer uses oid_ecPublicKey, which the reader accepts", len(oid_w) == 1 and norm_text(oid_w[0].args[0]) == "*oid_ecPublicKey" and any(isinstance(n, ast.Name) and n.id == "oid_ecPublicKey" for n in ast.walk(f.node)), loc=sk_der.qname, key="C09|R09.1|oid", detail="algorithm OID written is not among those accepted")
     # ---------------- R09.7
     ex = EXEMPT_DROPS["keys:SigningKey.from_der"]
     parents_stmt = {}
